@@ -74,6 +74,9 @@ Inductive rcase :=
 | RcRoute (has_lk : bool) (table : list (bytes * lookup_res)) (has_home : bool)
           (eps : list bytes) (sni : bytes) (ip : bool)
           (obs_rejected obs_dialed : bool) (obs_code : N) (obs_arg : bytes)
+| RcFront (has_lk : bool) (entry : lookup_res) (has_home : bool) (eps : list bytes)
+          (sniff_ok : bool) (name : bytes) (ip : bool) (dial_ok : bool)
+          (obs_joined obs_closed : bool)
 | RcOffice (ops : list op) (expect : list obs)
 | RcConns (ops : list cop) (expect : list cobs)
 | RcIds (n : nat) (sorted_ids : list N)
@@ -105,6 +108,15 @@ Definition check_case (c : rcase) : bool :=
       (* ... and the closed form the theorems are about *)
       let '(code', arg') := route_code eps (decide is_ip gen_rejected_suffixes cfg sni) in
       (code' =? code) && beqb arg' arg
+  | RcFront has_lk entry has_home eps sniff_ok name ip dial_ok obs_joined obs_closed =>
+      (* the emitted hostConn + Server.dial on one end-to-end refusal scenario *)
+      let cfg := mkCfg has_lk (fun _ => entry) has_home (fun n => index_bytes n eps 0) in
+      match run_front (fun _ => ip) gen_rejected_steps gen_dial_steps cfg
+                      (if sniff_ok then Some name else None) dial_ok gen_host_steps hs0 with
+      | FOut o => Bool.eqb (fo_joined o) obs_joined &&
+                  (if obs_joined then true else Bool.eqb (fo_front_closed o) obs_closed)
+      | _ => false
+      end
   | RcOffice ops expect => list_eqb obs_eqb (snd (run office_init ops)) expect
   | RcConns ops expect => list_eqb cobs_eqb (snd (crun ctable_init ops)) expect
   | RcIds n ids => list_eqb N.eqb (ids_of (snd (run office_init (repeat ONext n)))) ids
